@@ -518,6 +518,24 @@ def proof_stage(ctx: Ctx, rel: str, *, allowed_axioms: Sequence[str] = ()) -> Th
     for a in sorted(axioms):
         tb.append(f"axiom (Print Assumptions): {a}")
     ctx.coverage["trusted_base"] = tb
+    if rep.compiled and ctx.thorough and os.environ.get("VERIF_NO_COQCHK") != "1":
+        # independent re-check of the compiled theorem file and everything it depends on
+        mod = "Annet." + rel[:-2].replace("/", ".")
+        q = sh(["timeout", "1500", "coqchk", "-silent", "-o", "-Q", ".", "Annet", mod], cwd=COQ, timeout=1530)
+        txt = q.stdout + q.stderr
+        summary = txt[txt.find("CONTEXT SUMMARY"):] if "CONTEXT SUMMARY" in txt else txt[-2000:]
+        ctx.coverage["coqchk"] = {"cmd": f"cd coq && coqchk -silent -o -Q . Annet {mod}", "rc": q.returncode,
+                                  "summary": re.sub(r"\n\s*\n", "\n", summary)[:3000]}
+        clean = all(re.search(r"\* " + re.escape(k) + r"[^\n]*<none>", summary) for k in
+                    ("Constants/Inductives relying on type-in-type", "Constants/Inductives relying on unsafe (co)fixpoints",
+                     "Inductives whose positivity is assumed"))
+        if q.returncode != 0 or not clean:
+            raise CheckFailure(f"coqchk failed or reports unsafe flags for {mod}:\n{txt[-2000:]}")
+        m = re.search(r"\* Axioms:(.*?)(?=\n\* |\Z)", summary, flags=re.S)
+        chk_axioms = [a.strip() for a in (m.group(1) if m else "").splitlines() if a.strip() and a.strip() != "<none>"]
+        for a in chk_axioms:
+            tb.append(f"axiom (coqchk -o, whole dependency closure incl. libraries): {a}")
+        ctx.coverage["trusted_base"] = tb
     if not rep.compiled:
         ctx.add_violation(Violation(
             signature=f"{ctx.prop}/theorem-does-not-check",
